@@ -317,6 +317,35 @@ theorem C19_distinct_keys_not_refused (size : β → Nat) (fn : α → β) (str 
     exact nodup_map_of_injective _ hinj _ hk
   simp [parallelise, this]
 
+/-- SAME KEY, TWO WRITERS (two runs that use one cache directory at the same time and compute the same key): each
+writes its own temporary (different process ids give different names, `C19_tmp_names_differ_across_processes`; no
+temporary is a result file, `C19_tmp_name_is_no_final_name`) and renames it onto the one result file.  For EVERY
+interleaving of the two writers' file operations, each possibly cut short anywhere (a kill), the result file is
+afterwards what it was before, or one writer's COMPLETE result, or the other's — never a partial file.  Since the cuts
+are arbitrary this holds at every instant of every schedule: a reader sees nothing (or the old file) or a complete file. -/
+theorem C19_same_key_two_writers (size : β → Nat) (tA tB fin : Path κ) (hAB : tA ≠ tB) (hA : tA ≠ fin) (hB : tB ≠ fin)
+    (rA rB : β) (fs : FS κ β) (cA cB : Nat) (l : List (Op κ β))
+    (hl : Interleave ((saveOpsAt size tA fin rA).take cA) ((saveOpsAt size tB fin rB).take cB) l) :
+    (applyOps fs l) fin = fs fin ∨ (applyOps fs l) fin = .data rA (size rA) ∨
+      (applyOps fs l) fin = .data rB (size rB) :=
+  two_writers_inv hAB hA hB (fs fin) _ _ l hl fs (pending_take size tA fin rA fs cA)
+    (pending_take size tB fin rB fs cB) (.inl rfl)
+
+/-- ... so with a deterministic `fn` (both compute the same value) the shared result file stays GOOD (absent or the
+complete right pickle), and a later run loads it or recomputes — it never raises -/
+theorem C19_same_key_two_writers_good (size : β → Nat) (tA tB fin : Path κ) (hAB : tA ≠ tB) (hA : tA ≠ fin)
+    (hB : tB ≠ fin) (r : β) (fs : FS κ β) (hg : (fs fin).Good size r) (cA cB : Nat) (l : List (Op κ β))
+    (hl : Interleave ((saveOpsAt size tA fin r).take cA) ((saveOpsAt size tB fin r).take cB) l) :
+    ((applyOps fs l) fin).Good size r := by
+  rcases C19_same_key_two_writers size tA tB fin hAB hA hB r r fs cA cB l hl with h | h | h
+  · rw [h]; exact hg
+  · rw [h]; exact ⟨rfl, Nat.le_refl _⟩
+  · rw [h]; exact ⟨rfl, Nat.le_refl _⟩
+
+/-- the shipped save IS this writer with the key's own temporary and result file -/
+theorem C19_save_is_writer (size : β → Nat) (k : κ) (res : β) :
+    saveOps Gen.saveMode size k res = saveOpsAt size (.tmp k) (.final k) res := rfl
+
 /-- the pinned tree's naming `str(k) + ".p"` is NOT injective over keys of different type: 1 and '1' have the same
 `str` (kept as the reason the repair exists) -/
 theorem C19_plain_names_collide :
